@@ -221,3 +221,61 @@ package opset13
 //@ func (*Xor).GetInputTypeConstraints
 //@   tags C03
 //@   ensures len(result) == 2 && (exists j :: 0 <= j && j < len(result[0]) && result[0][j] == Bool) && (exists j :: 0 <= j && j < len(result[1]) && result[1][j] == Bool)
+
+// ---------------------------------------------------------------------------------------
+// C07: Reshape, Flatten, Squeeze, Unsqueeze, Shape
+
+//@ spec ints_positive(s []int) bool = forall k :: 0 <= k && k < len(s) ==> s[k] >= 1
+
+//@ func processShape
+//@   tags C07
+//@   requires ints_positive(currentShape) && base(newShape) != base(currentShape)
+//@   modifies newShape[*]
+//@   ensures zero_copies_input_dim: err == nil ==> (forall k :: 0 <= k && k < len(newShape) && old(newShape[k]) == 0 ==> k < len(currentShape) && newShape[k] == currentShape[k])
+//@   ensures zero_beyond_rank_refused: (exists k :: 0 <= k && k < len(newShape) && old(newShape[k]) == 0 && k >= len(currentShape)) ==> err != nil
+//@   ensures two_inferred_dims_refused: (forall k :: 0 <= k && k < len(newShape) && old(newShape[k]) == 0 ==> k < len(currentShape)) &&
+//@          (exists a, b :: 0 <= a && a < b && b < len(newShape) && old(newShape[a]) == 0 - 1 && old(newShape[b]) == 0 - 1) ==> err != nil
+//@   ensures other_dims_kept: err == nil ==> (forall k :: 0 <= k && k < len(newShape) && old(newShape[k]) != 0 && old(newShape[k]) != 0 - 1 ==> newShape[k] == old(newShape[k]))
+//@   ensures at_most_first_minus_one_inferred: err == nil ==> (forall k :: 0 <= k && k < len(newShape) && old(newShape[k]) == 0 - 1 && newShape[k] != 0 - 1 ==>
+//@          (forall j :: 0 <= j && j < k ==> old(newShape[j]) != 0 - 1))
+//@   loop 1 invariant 0 <= i && i <= len(newShape) &&
+//@          (forall k :: 0 <= k && k < i && old(newShape[k]) == 0 ==> k < len(currentShape) && newShape[k] == currentShape[k]) &&
+//@          (forall k :: 0 <= k && k < i && old(newShape[k]) != 0 ==> newShape[k] == old(newShape[k])) &&
+//@          (forall k :: i <= k && k < len(newShape) ==> newShape[k] == old(newShape[k]))
+//@   loop 2 invariant 0 <= i && i <= len(newShape) &&
+//@          (forall k :: 0 <= k && k < len(newShape) && old(newShape[k]) == 0 ==> k < len(currentShape) && newShape[k] == currentShape[k]) &&
+//@          (forall k :: 0 <= k && k < len(newShape) && old(newShape[k]) != 0 ==> newShape[k] == old(newShape[k])) &&
+//@          (forall k :: 0 <= k && k < i ==> newShape[k] != 0 - 1)
+//@   loop 3 invariant 0 <= j && j <= len(newShape) && 0 <= i && i < len(newShape) && newShape[i] == 0 - 1 &&
+//@          (forall k :: 0 <= k && k < len(newShape) && old(newShape[k]) == 0 ==> k < len(currentShape) && newShape[k] == currentShape[k]) &&
+//@          (forall k :: 0 <= k && k < len(newShape) && old(newShape[k]) != 0 ==> newShape[k] == old(newShape[k])) &&
+//@          (forall k :: 0 <= k && k < i ==> newShape[k] != 0 - 1) &&
+//@          (forall k :: 0 <= k && k < j && k != i ==> newShape[k] != 0 - 1)
+
+//@ func (*Reshape).Apply
+//@   tags C07,C02
+//@   requires self != nil && len(inputs) == 2 && inputs[0] != nil && inputs[1] != nil
+//@   scope validated_and_positive: dtype(inputs[1]) == Int64 && dims_positive(inputs[0])
+//@   ensures keeps_elements: err == nil ==> len(result) == 1 && result[0] != nil && fresh(result[0]) && contents(result[0]) == contents(inputs[0]) &&
+//@          dtype(result[0]) == dtype(inputs[0]) && blen(result[0]) == blen(inputs[0])
+//@   ensures count_preserved: err == nil ==> nelems(shapeof(result[0])) == nelems(shapeof(inputs[0]))
+
+//@ func (*Flatten).Apply
+//@   tags C07,C02
+//@   requires self != nil && len(inputs) == 1 && inputs[0] != nil
+//@   scope positive_extents: dims_positive(inputs[0])
+//@   ensures valid_axis_computed: 0 - rank(inputs[0]) <= self.axis && self.axis <= rank(inputs[0]) ==> err == nil
+//@   ensures flattened: err == nil ==> len(result) == 1 && result[0] != nil && fresh(result[0]) && rank(result[0]) == 2 &&
+//@          contents(result[0]) == contents(inputs[0]) && dtype(result[0]) == dtype(inputs[0]) &&
+//@          dim(result[0], 0) * dim(result[0], 1) == nelems(shapeof(inputs[0]))
+//@   ensures split_at_axis: err == nil && 0 <= self.axis && self.axis <= rank(inputs[0]) ==>
+//@          dim(result[0], 0) == nelems(shapeof(inputs[0])[:self.axis]) && dim(result[0], 1) == nelems(shapeof(inputs[0])[self.axis:])
+//@   ensures split_at_negative_axis: err == nil && 0 - rank(inputs[0]) <= self.axis && self.axis < 0 ==>
+//@          dim(result[0], 0) == nelems(shapeof(inputs[0])[:rank(inputs[0]) + self.axis]) && dim(result[0], 1) == nelems(shapeof(inputs[0])[rank(inputs[0]) + self.axis:])
+
+//@ func (*Shape).Apply
+//@   tags C07,C02
+//@   requires self != nil && len(inputs) == 1 && inputs[0] != nil
+//@   ensures err == nil && len(result) == 1 && result[0] != nil && fresh(result[0]) && rank(result[0]) == 1 && dim(result[0], 0) == rank(inputs[0]) &&
+//@          dtype(result[0]) == Int64 && (forall k :: 0 <= k && k < rank(inputs[0]) ==> telem(result[0], "int64", k) == dim(inputs[0], k))
+//@   loop 1 invariant len(shape) == len(nodeShape) && fresh(shape) && base(shape) != 0 && (forall k :: 0 <= k && k < $i ==> shape[k] == nodeShape[k])
